@@ -14,7 +14,8 @@ RULE = ("corpus first; then mechanics as in C06/C07 (recursive, nested, pool sou
         "in which a marker exception is raised at callback invocation index i (i ranges over the invocations of the "
         "fault-free run, nested evaluations and pool-roll enumeration included), followed in the same interpreter by "
         "probe evaluations (default limit, explicit limits, a recursive mechanic, explode).  Checked: the very same "
-        "exception object reaches the caller; every probe answer equals the stateless oracle / the model started "
+        "exception object (user-defined subclasses of Exception, BaseException, RuntimeError, NotImplementedError, "
+        "StopIteration, KeyError, OverflowError, OSError, MemoryError, ... and plain built-ins) reaches the caller; every probe answer equals the stateless oracle / the model started "
         "from a fresh context.  Non-trivial: the fault fires inside a nested evaluation or a multi-branch one.")
 ASSUMPTIONS = [
     "thread-level behaviour of contextvars.ContextVar is not modelled (single-threaded evaluation)",
@@ -29,7 +30,9 @@ def gen_cases(rng, tier):
     while len(cases) < n and tries < n * 4:
         tries += 1
         acyclic = rng.random() < 0.3
-        mech = C07.gen_mech(rng, acyclic)
+        # a third of the mechanics have branches that bottom out the stack (RecursionError -> sentinel for that
+        # branch only; no other branch, and no later evaluation, may be affected)
+        mech = C07.gen_mech(rng, acyclic, recerr_p=rng.choice([0.04, 0.04, 0.3]))
         lim = rng.choice([None, ["int", 1], ["int", 2], ["int", 3], ["frac", 1, 4], ["frac", 1, 8]])
         probes = [[0, None], [0, ["int", 2]], [len(mech["states"]) - 1, rng.choice([None, ["int", 1], ["frac", 1, 4]])],
                   [rng.randrange(len(mech["states"])), ["int", 0]]]
@@ -37,7 +40,7 @@ def gen_cases(rng, tier):
         if ec.oracle_calls(mech, [tuple(c) for c in calls], budget=4000) is None:
             continue
         cases.append({"kind": "fault", "mech": mech, "calls": calls, "pick": rng.randint(0, 10 ** 6),
-                      "with_fault": rng.random() < 0.85, "base_exception": rng.random() < 0.4})
+                      "with_fault": rng.random() < 0.85, "base_exception": False, "exc_kind": rng.choice(ec.FAULT_KINDS)})
     return cases
 
 
@@ -48,7 +51,8 @@ def impl_run(case):
     # phase 1 (separate closure state, same interpreter): count the invocations of the first call
     _, ninv = ec.run_mech_impl(case["mech"], calls[:1])
     fault = (case["pick"] % ninv) if (case["with_fault"] and ninv > 0) else None
-    answers, total_inv = ec.run_mech_impl(case["mech"], calls, fault=fault, base_exception=case.get("base_exception", False))
+    answers, total_inv = ec.run_mech_impl(case["mech"], calls, fault=fault, base_exception=case.get("base_exception", False),
+                                              exc_kind=case.get("exc_kind"))
     ex = explode(H({1: 1, 2: 1}), limit=2)
     sub = H(4).substitute(lambda h, o: h if o == 4 else o, lambda h, o: h)
     from common import hist_items
